@@ -143,6 +143,7 @@ type SpecFunc struct {
 	Body     Expr // nil for abstract
 	IsPred   bool
 	Abstract bool
+	Rec      bool
 	Heap     bool // abstract function that also depends on the heap (not supported) - unused
 	File     string
 	Line     int
@@ -162,6 +163,14 @@ type AxiomDecl struct {
 	Text string
 }
 
+type LemmaDecl struct {
+	Pkg  string
+	Name string
+	Tags []string
+	E    Expr
+	Text string
+}
+
 type InvariantDecl struct {
 	Pkg  string
 	Name string
@@ -174,6 +183,7 @@ type SpecFile struct {
 	Funcs   []*SpecFunc
 	Contrs  []*FuncContract
 	Axioms  []AxiomDecl
+	Lemmas  []LemmaDecl
 	Imports map[string]string // alias -> package path
 }
 
@@ -559,7 +569,7 @@ func (ps *parser) parsePrimary() Expr {
 // one logical entry per line; continuation lines are lines whose first word is
 // not a keyword.
 
-var declKeywords = map[string]bool{"ghost": true, "pure": true, "pred": true, "func": true, "axiom": true,
+var declKeywords = map[string]bool{"ghost": true, "pure": true, "pred": true, "rec": true, "func": true, "axiom": true, "lemma": true,
 	"package": true, "import": true, "abstract": true, "iface": true, "functype": true, "fieldfunc": true}
 var clauseKeywords = map[string]bool{"requires": true, "ensures": true, "modifies": true, "ghost_entry": true,
 	"ghost_exit": true, "loop": true, "call": true, "mode": true, "allocates": true, "tags": true, "ghostparams": true}
@@ -650,7 +660,19 @@ func parseSpecFile(path, pkgPath string, lines []rawLine) (sf *SpecFile, err err
 			}
 			sf.Axioms = append(sf.Axioms, AxiomDecl{sf.Pkg, strings.TrimSpace(rest[:i]), e, rest})
 			cur = nil
-		case "pure", "pred", "abstract":
+		case "lemma":
+			i := strings.Index(rest, ":=")
+			if i < 0 {
+				return nil, fail(en, "lemma [tags] name := expr")
+			}
+			tags, name := parseTags(rest[:i])
+			e, err := parseExpr(rest[i+2:])
+			if err != nil {
+				return nil, fail(en, "%v", err)
+			}
+			sf.Lemmas = append(sf.Lemmas, LemmaDecl{sf.Pkg, strings.TrimSpace(name), tags, e, strings.TrimSpace(rest[i+2:])})
+			cur = nil
+		case "pure", "pred", "abstract", "rec":
 			f, err := parseSpecFuncDecl(w, rest, sf.Pkg)
 			if err != nil {
 				return nil, fail(en, "%v", err)
@@ -1000,7 +1022,7 @@ func parseFuncHeader(kind, rest, pkg string) (*FuncContract, error) {
 
 // pure func (fl *FrameLoop) n() int := expr ; pred (..) name(..) := expr ; abstract func name(a int) int
 func parseSpecFuncDecl(kind, rest, pkg string) (*SpecFunc, error) {
-	sf := &SpecFunc{Pkg: pkg, IsPred: kind == "pred", Abstract: kind == "abstract"}
+	sf := &SpecFunc{Pkg: pkg, IsPred: kind == "pred", Abstract: kind == "abstract", Rec: kind == "rec"}
 	body := ""
 	if i := strings.Index(rest, ":="); i >= 0 {
 		body = rest[i+2:]
